@@ -239,7 +239,22 @@ def r3(ck, rule="C16-R3"):
                                 "(present? deleted?) and - for names not in memory - the disk"),
                                (gol, allowed_load, "whether a file is taken from memory, loaded or taken for absent depends only on the map entry and "
                                 "the answer of the load")):
-        other = [(bb, df.show(e, 90)) for bb, kind, e in decisions(fn_) if not allowed(kind, e)]
+        def allowed_any(kind, e, fn_=fn_, allowed=allowed):
+            # a decision computed into a flag first: every value the flag can stand for is an allowed one (or a constant)
+            if allowed(kind, e):
+                return True
+            alts = df.alternatives(fn_, e)
+            if not alts or alts == [e]:
+                return False
+
+            def one(a):
+                while isinstance(a, tuple) and a and a[0] in ("un",) and len(a) >= 3:
+                    a = a[2]
+                while isinstance(a, tuple) and a and a[0] == "not":
+                    a = a[1]
+                return df.is_const(a) or allowed(kind, a)
+            return all(one(a) for a in alts)
+        other = [(bb, df.show(e, 90)) for bb, kind, e in decisions(fn_) if not allowed_any(kind, e)]
         ck.require(not other, rule, what,
                    "%s also branches on %s: an answer remembered from an earlier lookup (or any other summary) can be stale within the run and "
                    "is not what a later invocation would find" % (fn_.id.split("::")[-1], [x[1] for x in other]),
